@@ -223,8 +223,8 @@ fn parse_point<'a>(
 }
 
 fn parse_index(s: &str) -> Result<usize> {
-    // OBJ has one-based indices
-    Ok(s.parse::<usize>()? - 1)
+    // OBJ has one-based indices; zero is not a valid index
+    s.parse::<usize>()?.checked_sub(1).ok_or(InvalidValue)
 }
 
 fn parse_indices(param: &str) -> Result<Indices> {
